@@ -394,10 +394,13 @@ func roundtripReplay(args []string) {
 			return
 		}
 
-		// the same document with a further member whose value is null
+		// the same document with further members whose values are null / empty
 		{
 			dn := deepCopyGeneric(generic(dj)).(map[string]interface{})
 			dn["zz-null"] = nil
+			dn["zz-empty-list"] = []interface{}{}
+			dn["zz-empty-object"] = map[string]interface{}{}
+			dn["zz-empty-string"] = ""
 			rawN, _ := json.Marshal(dn)
 
 			pn, en := patch.PatchesFromDocument(string(rawN))
